@@ -51,6 +51,9 @@ impl Prop for C11Prop {
         if simple {
             cfg.tab_width = *t.pick(&[2, 4, 2, 3, 1]);
             cfg.continuation_indents = *t.pick(&[2, 1, 2]);
+            // hard tabs too: the limit is then in characters (a tab counts as one), which is
+            // the measure `max_line` uses as well
+            cfg.use_tabs = t.chance(1, 5);
         }
         let policy = if simple {
             Some(if t.chance(1, 3) { crate::gen::layout::CommentPolicy::LineEdgesMid } else { crate::gen::layout::CommentPolicy::LineEdges })
@@ -129,12 +132,19 @@ impl Prop for C11Prop {
             let l2: Vec<&str> = o2.split('\n').collect();
             let d = l1.iter().zip(&l2).position(|(a, b)| a != b).unwrap_or(0);
             let near_comment = l1.iter().skip(d).take(3).chain(l2.iter().skip(d).take(4)).any(|l| l.contains("//"));
+            // ... or does it start in a routine heading?
+            let heading = l1.iter().skip(d.saturating_sub(2)).take(3).any(|l| {
+                let l = l.trim_start();
+                let l = l.strip_prefix("class ").unwrap_or(l);
+                ["function", "procedure", "constructor", "destructor", "operator"].iter().any(|k| l.starts_with(k))
+            });
             return Outcome::Fail(
                 Failure::new(
                     "more-lines-when-wider",
                     format!("wrap_column={w2} gives {n2} lines, wrap_column={w1} only {n1}"),
                 )
                 .fact(if near_comment { "diff-touches-line-comment" } else { "diff-without-line-comment" })
+                .fact(if heading { "diff-in-routine-heading" } else { "diff-outside-routine-heading" })
                 .fact(if pct <= 35 { "increase<=35%" } else { "increase>35%" })
                 .facts(&logf),
             );
